@@ -13,6 +13,7 @@ from __future__ import annotations
 import math
 
 from vlib import common as V
+from vlib import nasty as N
 
 # name -> element key (the template text of the key is executed, so a change of the
 # table entry is seen as well as a change of the anchored function)
@@ -360,39 +361,40 @@ def oracle_dyads(item):
 
 
 def oracle_large(item):
-    """n up to 10^12: every statement checked by its characterisation (trial division to
-    10^6 is complete there), m a second operand for the dyads."""
-    n, m = item
+    """Large and classically hard n: every statement checked against the independent
+    reference of vlib/nasty.py (deterministic Miller-Rabin with the first 13 prime bases, a
+    proof below 3.3 * 10^24, + strong Lucas above; recorded factorisations of constructed
+    numbers, else Pollard rho; no sympy).  m is the second operand of the dyads; `full` is
+    false when n is too large to factor without a recorded factorisation (then only
+    primality, next prime, notation, arithmetic and the dyads are checked)."""
+    n, m, _kind, full = item
     out = []
+    want = int(N.is_prime_ref(n))
     ip = call("is_prime", n)
-    if ip != int(ref_is_prime(n)):
-        _bad(out, "is_prime", n, int(ref_is_prime(n)), ip)
-    fs = ref_factor(n) if n >= 1 else None
-    if n >= 1:
+    if ip != want:
+        _bad(out, "is_prime", n, want, ip)
+    if n >= 1 and full:
+        fs = N.factor_ref(n)
         got = call("prime_factors", n)
-        if not is_ints(got) or math.prod(got) != n or not all(ref_is_prime(p) for p in got) or sorted(got) != fs:
+        if not is_ints(got) or math.prod(got) != n or not all(N.is_prime_ref(p) for p in got) or sorted(got) != fs:
             _bad(out, "prime_factors", n, fs, got)
         elif got != fs:
             out.append({"unsorted": n, "got": got})
         got = call("prime_factorisation", n)
         if got != sorted(set(fs)):
             _bad(out, "prime_factorisation", n, sorted(set(fs)), got)
-        cnt = 1
-        for p in set(fs):
-            cnt *= fs.count(p) + 1
+        ds = N.divisors_ref(n)
         got = call("divisors", n)
-        okshape = isinstance(got, list) and all(isinstance(d, int) for d in got)
-        if not okshape or len(got) != cnt or any(d <= 0 or n % d for d in got) or any(x >= y for x, y in zip(got, got[1:])):
-            _bad(out, "divisors", n, f"the {cnt} positive divisors, strictly ascending", got)
-        t = n
-        for p in set(fs):
-            t = t // p * (p - 1)
+        if got != ds:
+            _bad(out, "divisors", n, ds, got)
+        t = N.totient_ref(n)
         got = call("totient", n)
         if got != t:
             _bad(out, "totient", n, t, got)
+    np_ = N.next_prime_ref(n)
     got = call("next_prime", n)
-    if not (isinstance(got, int) and got > n and ref_is_prime(got) and not any(ref_is_prime(q) for q in range(n + 1, got))):
-        _bad(out, "next_prime", n, "the least prime above n", got)
+    if got != np_:
+        _bad(out, "next_prime", n, np_, got)
     check_notation(n, out)
     check_arith(n, out)
     g = call("gcd", n, m)
@@ -448,6 +450,11 @@ def impl_row(n):
     r["from_bin"] = call("from_bin", ref_digits(n, 2))
     r["from_hex"] = call("hex", ref_hex(n).upper() if n % 2 else ref_hex(n))
     return r
+
+
+def impl_hard(n):
+    return {"n": n, "is_prime": call("is_prime", n), "prime_factors": _sorted_ints(call("prime_factors", n)),
+            "prime_factorisation": call("prime_factorisation", n)}
 
 
 def impl_small(n):
@@ -546,6 +553,15 @@ def correspondence(env):
     for name, spec in MONADS.items():
         lo = 1 if name in ("prime_factors", "prime_factorisation", "divisors", "totient") else 0
         total += coq_component(env, name, spec, [(r["n"], r[name]) for r in rows if r["n"] >= lo], "n", shard)
+    # the hard numbers within reach of the model's trial division (square root <= 5500)
+    hard = [n for n, _ in N.hard_integers(limit=3 * 10 ** 7) if n > nmax]
+    res = V.pmap(impl_hard, hard, timeout=30)
+    hrows = [r for st, r in res if st == "ok"]
+    if len(hrows) != len(hard):
+        env.proof_broken("implementation run for correspondence failed (hard numbers)", repr([r for r in res if r[0] != "ok"][:3]))
+    for name in ("is_prime", "prime_factors", "prime_factorisation"):
+        total += coq_component(env, name + "_hard", MONADS[name], [(r["n"], r[name]) for r in hrows], "n", 60)
+    env.note("correspondence_hard_numbers", {"count": len(hard), "upto": 3 * 10 ** 7, "functions": ["is_prime", "prime_factors", "prime_factorisation"]})
     # from_hex: the string handed to the implementation is the model's own to_hex
     # (lower case for even n, upper case for odd n); the model parses it back
     fh = [(r["n"], r["from_hex"]) for r in rows]
@@ -605,28 +621,38 @@ def correspondence(env):
 # ----------------------------------------------------------------------------
 # inputs
 # ----------------------------------------------------------------------------
-CARMICHAEL = [561, 1105, 1729, 2465, 2821, 6601, 8911, 41041, 825265, 321197185, 5394826801, 232250619601]
-BIG_PRIMES = [999983, 999979, 1000003, 99991, 10007]
+FACTOR_LIMIT = 2 ** 70   # above it only numbers with a recorded factorisation are factored
 
 
 def large_inputs(env):
+    """(n, second operand, kind, full) items: the whole hard pool of vlib/nasty.py
+    (non-negative part: the property speaks of non-negative arguments) and random n."""
     rng = env.rng
-    top = 10 ** 12
-    xs = []
-    for k in range(11, 40):
-        xs += [2 ** k - 1, 2 ** k, 2 ** k + 1]
-    for k in range(4, 13):
-        xs += [10 ** k - 1, 10 ** k]
-    xs += CARMICHAEL
-    xs += [p * p for p in BIG_PRIMES if p * p <= top] + [999983 * 999979, 999983 * 2, 999999999989, 999999000001]
+    hard = N.hard_integers()
+    xs = [(n, kind) for n, kind in hard]
     structured = len(xs)
     nrand = env.budget(150, 1500)
     for i in range(nrand):
-        if i % 2:
-            xs.append(rng.randint(20001, top))
+        if i % 3 == 0:
+            xs.append((rng.randint(20001, 10 ** 12), "random-uniform-10^12"))
+        elif i % 3 == 1:
+            xs.append((rng.getrandbits(rng.randint(15, 64)) + 1, "random-bits-15..64"))
+        else:   # a product of two random primes of equal size: the hard case of factoring
+            b = rng.randint(8, 30)
+            p, q = N.next_prime_ref(rng.getrandbits(b) + 2), N.next_prime_ref(rng.getrandbits(b) + 2)
+            xs.append((p * q, "random-semiprime"))
+    pool = [n for n, _ in hard if n > 1]
+    items = []
+    for i, (n, kind) in enumerate(xs):
+        if i % 3 == 0:
+            m = rng.choice(pool)                                   # another hard number
+        elif i % 3 == 1:
+            fs = N.HARD_FACTORS.get(n)
+            m = (rng.choice(fs) if fs else (ref_gcd(n, 720720) or 1)) * rng.randint(0, 10 ** 6)   # shares a factor with n
         else:
-            xs.append(rng.getrandbits(rng.randint(15, 39)) + 1)
-    return [(n, rng.randint(0, top) if i % 3 else rng.randint(0, 10 ** 6) * (ref_gcd(n, 720720) or 1)) for i, n in enumerate(xs)], structured
+            m = rng.randint(0, 10 ** 12)
+        items.append((n, m, kind, n <= FACTOR_LIMIT or n in N.HARD_FACTORS))
+    return items, structured
 
 
 UNSORTED = []
@@ -663,15 +689,24 @@ def oracle(env):
     items, structured = large_inputs(env)
     res = V.pmap(oracle_large, items, timeout=300, chunksize=1)
     collect(env, res, items, "large")
-    env.count(len(items) * 27, (f"n:{n}" for n, _ in items))
-    bits = {}
-    for n, _ in items:
-        bits[n.bit_length()] = bits.get(n.bit_length(), 0) + 1
+    env.count(len(items) * 27, (f"n:{it[0]}" for it in items))
+    bits, kinds = {}, {}
+    for it in items:
+        bits[it[0].bit_length()] = bits.get(it[0].bit_length(), 0) + 1
+        k = it[2].split("-first")[0]
+        kinds[k] = kinds.get(k, 0) + 1
     env.note("oracle", {
         "exhaustive_n": [0, nmax], "ranges_exhaustive_n_upto": range_limit, "factorial_exhaustive_n_upto": fact_limit,
         "dyads_all_pairs_upto": pmax, "large_inputs": len(items), "large_structured": structured,
-        "large_structured_kinds": "2^k-1, 2^k, 2^k+1 (k=11..39); 10^k-1, 10^k (k=4..12); Carmichael numbers; squares and products of primes near 10^6; primes near 10^12",
-        "large_random_distribution": "half uniform on [20001, 10^12], half uniform bit length 15..39 then uniform bits; second operand uniform on [0, 10^12] or a multiple of gcd(n, 720720)",
+        "large_not_factored": sum(1 for it in items if not it[3]),
+        "large_kinds": kinds,
+        "large_structured_source": "vlib/nasty.py hard_integers(): built by construction (psi_1..psi_13 verified, p(r(p-1)+1) strong pseudoprimes, "
+                                   "Korselt/Chernick Carmichael numbers, Poulet numbers, primes near 10^k and 2^31/2^32/2^53/2^63/2^64 with neighbours, "
+                                   "squares, cubes, products of close primes, Mersenne/Fermat numbers, 2^k, 10^k, n!, primorials with +-1)",
+        "large_reference": "vlib/nasty.py: deterministic Miller-Rabin (first 13 prime bases, proof below 3.3e24) + strong Lucas above; recorded "
+                           "factorisations or Pollard rho; no sympy",
+        "large_random_distribution": "a third uniform on [20001, 10^12], a third uniform bit length 15..64 then uniform bits, a third products of two "
+                                     "random primes of 8..30 bits; second operand: another hard number / a multiple of a prime factor of n / uniform to 10^12",
         "large_bit_length_histogram": {str(k): v for k, v in sorted(bits.items())},
     })
     return items
@@ -683,8 +718,11 @@ def run(env):
                 "canonicalised answer is embedded in a Coq case file and compared with the model by vm_compute; "
                 "(2) oracle on the implementation against naive Python reference definitions: all monads for every n = 0..2000 / 0..20000 "
                 "(ranges to 500 / 2000, factorial to 2000 / 5000), gcd, lcm, gcd*lcm = a*b, binomial on all pairs <= 100 / <= 300, and "
-                "structured + random n up to 10^12 checked by characterisation (product of returned factors, each factor prime by trial "
-                "division, divisor count, least prime above n, round trips). Non-trivial = n >= 2 (pairs: both >= 1), distinct by input; "
+                "the hard-number pool of vlib/nasty.py (strong pseudoprimes psi_1..psi_13 and their family, Carmichael and Poulet numbers, primes "
+                "near powers of ten and word sizes with neighbours, prime squares/cubes, products of close primes, Mersenne/Fermat numbers, 2^k, 10^k, "
+                "n!, primorials +-1; up to 2^128) + random n up to 2^64 and random semiprimes, all decided by an independent reference (deterministic "
+                "Miller-Rabin, recorded factorisations / Pollard rho, no sympy); the pool members below 3*10^7 also go through the Coq model "
+                "(is_prime, prime_factors). Non-trivial = n >= 2 (pairs: both >= 1), distinct by input; "
                 "inputs where the textbook function is undefined are excluded and listed under `excluded`.")
     V.import_repo()
     g = _impl()
@@ -715,7 +753,7 @@ def run(env):
     env.assume("arguments are non-negative Python ints; canonicalisation maps sympy Integer to int, Rational to (p, q), LazyList to the forced list, "
                "a non-rational sympy value (surd) to 'not an integer'")
     env.assume("the Coq model equals the implementation on all inputs, checked on the correspondence range only (not proved); beyond it the oracle "
-               "compares the implementation with independent naive Python definitions up to 20000 and by characterisation up to 10^12")
+               "compares the implementation with independent naive Python definitions up to 20000 and with the independent reference of vlib/nasty.py on the hard-number pool and random n up to 2^64")
     env.assume("next_prime's fuel (candidates n+1..2n+2) suffices by Bertrand's postulate, which is not proved in Coq: the theorem is stated for the "
                "case that the search answers, and the search answered for every n of the correspondence range")
     env.assume("from_hex models Python's int(s, 16) on plain hexadecimal digit strings only (no sign, prefix, underscore or blank)")
